@@ -593,7 +593,6 @@ func init() {
 
 var c07Topics = []string{"a", "a/b", "a/b/c", "a/c", "b"}
 
-
 // ---------------------------------------------------------------------------------------
 // C07 variant "race": a retained publish and a matching SUBSCRIBE handed to the broker in the
 // same driver turn, under seeded preemption (lockstep build): whichever way the two interleave
